@@ -90,11 +90,10 @@ impl ChainTracker {
     where
         T: num_traits::ToPrimitive + Clone,
     {
-        self.n += 1;
-
-        let n = self.n as f32;
         let x_arr =
             ndarray::ArrayView1::<T>::from_shape(self.n_params, x)?.mapv(|x| x.to_f32().unwrap());
+        self.n += 1;
+        let n = self.n as f32;
 
         self.mean = (self.mean.clone() * (n - 1.0) + x_arr.clone()) / n;
         if self.n == 1 {
@@ -233,11 +232,10 @@ impl MultiChainTracker {
             + std::clone::Clone
             + std::cmp::PartialOrd,
     {
-        self.n += 1;
-
-        let n = self.n as f32;
         let x_arr = ndarray::ArrayView2::<T>::from_shape((self.n_chains, self.n_params), x)?
             .mapv(|x| x.to_f32().unwrap());
+        self.n += 1;
+        let n = self.n as f32;
 
         self.mean = (self.mean.clone() * (n - 1.0) + x_arr.clone()) / n;
         if self.n == 1 {
